@@ -560,13 +560,21 @@ def _stub_backend(eng, stub):
     be.measure_heterodyne = lambda mode, shots=1, select=None, **kw: stub.result(mode, shots, "heterodyne")
 
 
+def scrambled(rng, n, k):
+    """k distinct modes of range(n); when k >= 2 mostly NOT in ascending order (ascending is what the tests cover)"""
+    regs = rng.sample(range(n), k)
+    if k >= 2 and regs == sorted(regs) and rng.random() < 0.8:
+        regs = regs[1:] + regs[:1] if rng.random() < 0.5 else regs[::-1]
+    return regs
+
+
 def gen_meas_program(rng, n):
     """a program of gates and several measurement commands (multi-mode in scrambled order, repeated modes)"""
     ops = []
     for _ in range(rng.randint(1, 4)):
         u = rng.random()
         if u < 0.55:
-            regs = rng.sample(range(n), rng.randint(1, min(n, 3)))
+            regs = scrambled(rng, n, rng.randint(1, min(n, 3)))
             ops.append(dict(cls=rng.choice(["MeasureFock", "MeasureFock", "MeasureThreshold"]), regs=regs, pars=[]))
         elif u < 0.8:
             ops.append(dict(cls="MeasureHomodyne", regs=[rng.randrange(n)], pars=[rng.choice([0.0, 0.5])]))
@@ -869,11 +877,19 @@ def oracle_cat_case(ctx, sf, case):
                      f"conditional states differ by {d2:.3g} (cutoff {D + 8}; {d:.3g} at {D})", rp)
 
 
-def _fock_state_of(sf, spec, cutoff, pure=True):
+def _fock_state_of(sf, spec, cutoff, pure=True, script=None):
+    """run on the Fock back end; here every exception counts (the callers only ask for outcomes of non-zero probability)"""
     prog, _ = progs.build(spec)
     eng = sf.Engine("fock", backend_options=dict(cutoff_dim=cutoff, pure=pure))
-    res = eng.run(prog)
-    return res, sim.dm_of(res.state)
+    try:
+        if script is not None:
+            with script:
+                res = eng.run(prog)
+        else:
+            res = eng.run(prog)
+    except Exception as e:  # noqa: BLE001
+        raise SFRaised(e, "fock")
+    return res, sim.dm_of(res.state), eng
 
 
 def oracle_fock_case(ctx, sf, case):
@@ -882,7 +898,7 @@ def oracle_fock_case(ctx, sf, case):
     returned outcome was drawn is its Born probability, and the post state is the projection on the returned outcome"""
     n, D, regs, pure = case["n"], case["cutoff"], case["regs"], case["pure"]
     pre = dict(n=n, ops=case["prefix"])
-    _, rho0 = _fock_state_of(sf, pre, D, pure)
+    _, rho0, _ = _fock_state_of(sf, pre, D, pure)
     rp = dict(kind="fock", case=case)
     ctx.oracle_cases += 1
     if case.get("select") is not None:
@@ -891,7 +907,7 @@ def oracle_fock_case(ctx, sf, case):
         spec = dict(n=n, ops=case["prefix"] + [dict(cls="MeasureFock", regs=regs, pars=[], select=sel)])
         if p < 1e-9:
             return
-        res, rho1 = _fock_state_of(sf, spec, D, pure)
+        res, rho1, _ = _fock_state_of(sf, spec, D, pure)
         outcome = dict(zip(regs, sel))
     else:
         spec = dict(n=n, ops=case["prefix"] + [dict(cls="MeasureFock", regs=regs, pars=[])])
@@ -901,11 +917,7 @@ def oracle_fock_case(ctx, sf, case):
             idx = [i for i in range(len(a)) if p[i] > 1e-7]
             return a[idx[pick % len(idx)]]
         script = m6.ScriptRNG(choice=chooser)
-        prog, _ = progs.build(spec)
-        eng = sf.Engine("fock", backend_options=dict(cutoff_dim=D, pure=pure))
-        with script:
-            res = eng.run(prog)
-        rho1 = sim.dm_of(res.state)
+        res, rho1, _ = _fock_state_of(sf, spec, D, pure, script=script)
         calls = script.calls("choice")
         if len(calls) != 1:
             ctx.fail("fock-rng:calls", f"{len(calls)} calls of numpy.random.choice for one MeasureFock", rp)
@@ -938,8 +950,8 @@ def oracle_fock_case(ctx, sf, case):
 def gen_fock_case(rng, selected):
     n = rng.randint(2, 4)
     D = rng.choice([4, 5]) if n <= 3 else 4
-    k = rng.randint(1, n)
-    regs = rng.sample(range(n), k)
+    k = rng.randint(1, n) if rng.random() < 0.3 else rng.randint(2, n)
+    regs = scrambled(rng, n, k)
     pure = rng.random() < 0.6 or n == 4
     ops_ = []
     for m in range(n):
@@ -1065,13 +1077,13 @@ def _threshold_conditional(ref, done):
 
 def gen_threshold_case(rng, backend):
     n = rng.randint(2, 4)
-    k = rng.randint(1, min(n, 3))
-    regs = rng.sample(range(n), k)
+    k = rng.randint(1, min(n, 3)) if rng.random() < 0.3 else rng.randint(2, min(n, 3))
+    regs = scrambled(rng, n, k)
     case = dict(n=n, regs=regs, backend=backend, hbar=rng.choice([2.0, 2.0, 1.0]), prefix=_prefix(rng, n))
     if backend == "bosonic":
         case["pattern"] = [rng.randint(0, 1) for _ in regs]
     else:
-        case["cls"] = rng.choice(["MeasureThreshold", "MeasureFock"])
+        case["cls"] = rng.choice(["MeasureThreshold", "MeasureThreshold", "MeasureFock"])
         case["shots"] = rng.choice([1, 3])
     return case
 
@@ -1088,11 +1100,13 @@ def oracle_fock_layout(ctx, sf, rng):
     for g in groups:
         ops_.append(dict(cls="MeasureFock", regs=g, pars=[]))
     spec = dict(n=n, ops=ops_)
-    prog, _ = progs.build(spec)
-    eng = sf.Engine("fock", backend_options=dict(cutoff_dim=5))
-    res = eng.run(prog)
     ctx.oracle_cases += 1
     rp = dict(kind="focklayout", spec=spec)
+    try:
+        res, _, eng = _fock_state_of(sf, spec, 5)
+    except SFRaised as e:
+        ctx.fail("fock-measure:raises", f"Fock states {ks} measured by MeasureFock on {groups}: {e}", rp)
+        return
     if np.asarray(res.samples).tolist() != [ks]:
         ctx.fail("samples-layout:rows-columns", f"Fock states {ks} measured by MeasureFock on {groups}: Result.samples = "
                  f"{np.asarray(res.samples).tolist()}", rp)
@@ -1201,9 +1215,12 @@ def _replay_one(ctx, sf, rp):
         check_layout(ctx, sf, rp["spec"], rp["shots"], rp["backend"])
     elif kind == "focklayout":
         # deterministic: rebuild from the stored spec
-        prog, _ = progs.build(rp["spec"])
-        res = sf.Engine("fock", backend_options=dict(cutoff_dim=5)).run(prog)
         ks = [o["pars"][0] for o in rp["spec"]["ops"] if o["cls"] == "Fock"]
+        try:
+            res, _, _ = _fock_state_of(sf, rp["spec"], 5)
+        except SFRaised as e:
+            ctx.fail("fock-measure:raises", f"Fock-state layout: {e}", rp)
+            return
         if np.asarray(res.samples).tolist() != [ks]:
             ctx.fail("samples-layout:rows-columns", "Fock-state layout", rp)
     elif kind in ORACLES:
